@@ -33,10 +33,15 @@ def fq(x):
 
 
 def labels(kind, n, rng):
+    # level labels include the falsy ones: '' and 0 are ordinary levels (and ordinary reference levels)
     if kind == "str":
-        return [f"l{i:02d}" for i in range(n)]
+        lv = [f"l{i:02d}" for i in range(n)]
+        if n and rng.random() < 0.3:
+            lv[rng.randrange(n)] = ""
+        return lv
     if kind == "int":
-        return [10 * i + 3 for i in range(n)]
+        off = rng.choice([3, 0, -10])
+        return [10 * i + off for i in range(n)]
     lv = [f"l{i:02d}" for i in range(n)]
     rng.shuffle(lv)
     return lv
@@ -336,11 +341,15 @@ def encode_cases(ctx, rng, elits, edescr):
                 data.append(None)
         if not explicit:
             present = sorted({d for d in data if d is not None})
-            if len(present) != n:        # inferred levels: only the levels present count
+            base_label = lv[kind[1]] if kind[0] == "treatment" and kind[2] and kind[1] < len(lv) else None
+            if present != list(lv):      # inferred levels: only the levels present count, in sorted order
                 lv = present
                 n = len(lv)
                 if kind[0] == "treatment":
-                    kind = ("treatment", min(kind[1], max(n - 1, 0)), kind[2] and n > 0)
+                    if base_label is not None and base_label in lv:
+                        kind = ("treatment", lv.index(base_label), True)
+                    else:
+                        kind = ("treatment", 0, False)
         if n == 0 and kind[0] == "treatment":
             kind = ("treatment", 0, False)
         idx = [lv.index(d) if d in lv else None for d in data]
